@@ -7,7 +7,7 @@
    mc / mf = grid.middle at the coarse / refined level (only the arithmetic mean is a proved instance). *)
 From Coq Require Import ZArith QArith List Lia.
 From RV Require Import Base.QB Model.Grid Gen.GenC01Trunc Gen.GenC04Triplet Model.Chain Model.Drift Model.Coupling1d
-  Model.CouplingNd Proofs.C13_Grid Proofs.C01_Chain Proofs.C03_Coupling1d Proofs.C03_CouplingNd.
+  Model.CouplingNd Proofs.C13_Grid Proofs.C01_Chain Proofs.C03_Coupling1d Proofs.C03_CouplingNd Proofs.C03_TelescopingNd.
 Import ListNotations.
 Open Scope Q_scope.
 
@@ -153,6 +153,73 @@ Section NdMeasure.
     corner2 amid mass2 xs ys p1 p2 = Some cs ->
     Forall (fun c => 0 <= snd c) cs /\ qsum (map (fun c => snd c) cs) == 1.
   Proof. intros xs ys p1 p2 cs. apply (corner2_is_law mass2); assumption. Qed.
+
+  (* TELESCOPING, dimension 2, JOINT corner masses (the repaired rule prob_to2_joint / coupling_state2_joint of Model/CouplingNd.v; the code
+     as it is takes margin masses and is REFUTED below): for ANY rectangle mass additive per coordinate and non-negative away from the origin
+     and ANY two admissible axes with the common origin index, every coarse state (j1,j2) other than the origin receives
+     sum_fine rate(fine) x P(fine -> (j1,j2)) = the rate of (j1,j2) in the chain built on the un-refined axes.  Fine states of rate 0
+     (where the rule divides by 0) contribute 0. *)
+  Theorem C03_telescoping_nd_joint : forall xs ys o h1 h2, admissible xs o h1 -> admissible ys o h2 ->
+    forall j1 j2, (j1 < length xs)%nat -> (j2 < length ys)%nat -> (j1, j2) <> (o, o) ->
+      inflow2_gen amid mass2 (prob_to2_joint amid mass2 marg) (refine_axis amid xs) (refine_axis amid ys) (2 * o) (2 * j1) (2 * j2)
+      == q_entry2 amid mass2 xs ys o j1 j2.
+  Proof. intros xs ys o h1 h2. apply (telescoping_nd_joint marg mass2); assumption. Qed.
+
+  (* the joint corner probabilities of ONE odd axis are a probability law whenever the cell mass is not 0 *)
+  Theorem C03_corner1_joint_is_law : forall xs ys p1 p2 pl pr,
+    (incr xs -> (1 <= p1)%nat -> (p1 + 1 < length xs)%nat -> (cell_hi amid xs p1 < 0 \/ 0 < cell_lo amid xs p1) ->
+     cell_lo amid ys p2 <= cell_hi amid ys p2 -> corner1_joint amid mass2 0 xs ys p1 p2 = Some (pl, pr) -> 0 <= pl /\ 0 <= pr /\ pl + pr == 1)
+    /\ (incr ys -> (1 <= p2)%nat -> (p2 + 1 < length ys)%nat -> (cell_hi amid ys p2 < 0 \/ 0 < cell_lo amid ys p2) ->
+        cell_lo amid xs p1 <= cell_hi amid xs p1 -> corner1_joint amid mass2 1 xs ys p1 p2 = Some (pl, pr) -> 0 <= pl /\ 0 <= pr /\ pl + pr == 1).
+  Proof. intros xs ys p1 p2 pl pr. split; [apply (corner1_joint0_is_law mass2)|apply (corner1_joint1_is_law mass2)]; assumption. Qed.
+
+  (* THE LAW OF THE 2-d COUPLING as a function of the coupling uniform u (audit3: prob_to2 and coupling_state2 were unlinked).
+     joint = false: the code as it is (coupling_state2 / prob_to2, margin masses); joint = true: the repaired rule.
+     One odd axis: the left neighbour exactly for u <= pl, the right one exactly for pl < u <= pl + pr, and prob_to2 assigns pl, pr to these
+     two targets and 0 to every other one.  (pl + pr == 1 and 0 <= pl, pr: C03_corner1_is_law / C03_corner1_joint_is_law.) *)
+  Theorem C03_coupling_law_nd_odd_even : forall (joint : bool) xs ys (o2 p1 p2 : nat) pl pr, Nat.even p1 = false -> Nat.even p2 = true ->
+    incr xs -> (p1 + 1 < length xs)%nat -> 0 <= pr ->
+    (if joint then corner1_joint amid mass2 0 xs ys p1 p2 else corner1 amid marg 0 xs p1) = Some (pl, pr) ->
+    let cs := (if joint then coupling_state2_joint amid mass2 marg else coupling_state2 amid mass2 marg)
+                xs ys (2 * o2)%nat (Z.of_nat p1 - Z.of_nat (2 * o2))%Z (Z.of_nat p2 - Z.of_nat (2 * o2))%Z in
+    let pt := (if joint then prob_to2_joint amid mass2 marg else prob_to2 amid mass2 marg) xs ys p1 p2 in
+    (forall u, cs u = Some (nthq xs (p1 - 1), nthq ys p2) <-> u <= pl)
+    /\ (forall u, cs u = Some (nthq xs (p1 + 1), nthq ys p2) <-> pl < u /\ u <= pl + pr)
+    /\ pt (p1 - 1)%nat p2 == pl /\ pt (p1 + 1)%nat p2 == pr
+    /\ (forall t1 t2, ~ (t2 = p2 /\ (t1 = (p1 - 1)%nat \/ t1 = (p1 + 1)%nat)) -> pt t1 t2 == 0).
+  Proof. intros joint xs ys o2 p1 p2 pl pr. apply law_odd_even. Qed.
+  Theorem C03_coupling_law_nd_even_odd : forall (joint : bool) xs ys (o2 p1 p2 : nat) pl pr, Nat.even p1 = true -> Nat.even p2 = false ->
+    incr ys -> (p2 + 1 < length ys)%nat -> 0 <= pr ->
+    (if joint then corner1_joint amid mass2 1 xs ys p1 p2 else corner1 amid marg 1 ys p2) = Some (pl, pr) ->
+    let cs := (if joint then coupling_state2_joint amid mass2 marg else coupling_state2 amid mass2 marg)
+                xs ys (2 * o2)%nat (Z.of_nat p1 - Z.of_nat (2 * o2))%Z (Z.of_nat p2 - Z.of_nat (2 * o2))%Z in
+    let pt := (if joint then prob_to2_joint amid mass2 marg else prob_to2 amid mass2 marg) xs ys p1 p2 in
+    (forall u, cs u = Some (nthq xs p1, nthq ys (p2 - 1)) <-> u <= pl)
+    /\ (forall u, cs u = Some (nthq xs p1, nthq ys (p2 + 1)) <-> pl < u /\ u <= pl + pr)
+    /\ pt p1 (p2 - 1)%nat == pl /\ pt p1 (p2 + 1)%nat == pr
+    /\ (forall t1 t2, ~ (t1 = p1 /\ (t2 = (p2 - 1)%nat \/ t2 = (p2 + 1)%nat)) -> pt t1 t2 == 0).
+  Proof. intros joint xs ys o2 p1 p2 pl pr. apply law_even_odd. Qed.
+  (* both axes odd (the two rules coincide): the four corners in itertools.product([-1,1]) order, corner k exactly for
+     cum_(k-1) < u <= cum_k; the corner probabilities are >= 0, sum to 1, and are what prob_to2 assigns *)
+  Theorem C03_coupling_law_nd_odd_odd : forall xs ys (o2 p1 p2 : nat) cs, Nat.even p1 = false -> Nat.even p2 = false ->
+    incr xs -> incr ys -> (p1 + 1 < length xs)%nat -> (p2 + 1 < length ys)%nat ->
+    (cell_hi amid xs p1 < 0 \/ 0 < cell_lo amid xs p1) ->
+    corner2 amid mass2 xs ys p1 p2 = Some cs ->
+    let i1 := (Z.of_nat p1 - Z.of_nat (2 * o2))%Z in let i2 := (Z.of_nat p2 - Z.of_nat (2 * o2))%Z in
+    let st := coupling_state2 amid mass2 marg xs ys (2 * o2) i1 i2 in
+    let pt := prob_to2 amid mass2 marg xs ys p1 p2 in
+    let v := fun d1 d2 : bool => (nthq xs (step_idx p1 d1), nthq ys (step_idx p2 d2)) in
+    exists q0 q1 q2 q3, cs = [(false, false, q0); (false, true, q1); (true, false, q2); (true, true, q3)]
+    /\ 0 <= q0 /\ 0 <= q1 /\ 0 <= q2 /\ 0 <= q3 /\ q0 + q1 + q2 + q3 == 1
+    /\ (forall u, (st u = Some (v false false) <-> u <= q0)
+                 /\ (st u = Some (v false true) <-> q0 < u /\ u <= q0 + q1)
+                 /\ (st u = Some (v true false) <-> q0 + q1 < u /\ u <= q0 + q1 + q2)
+                 /\ (st u = Some (v true true) <-> q0 + q1 + q2 < u /\ u <= q0 + q1 + q2 + q3))
+    /\ pt (p1 - 1)%nat (p2 - 1)%nat == q0 /\ pt (p1 - 1)%nat (p2 + 1)%nat == q1
+    /\ pt (p1 + 1)%nat (p2 - 1)%nat == q2 /\ pt (p1 + 1)%nat (p2 + 1)%nat == q3
+    /\ (forall u, coupling_state2_joint amid mass2 marg xs ys (2 * o2) i1 i2 u = st u)
+    /\ (forall t1 t2, prob_to2_joint amid mass2 marg xs ys p1 p2 t1 t2 = pt t1 t2).
+  Proof. intros xs ys o2 p1 p2 cs. apply (law_odd_odd marg mass2); assumption. Qed.
 End NdMeasure.
 
 (* the level machine of CouplingProcessLevyCopula: after any number n+1 of next_level calls the coarse diffusion matrix
@@ -166,6 +233,30 @@ Theorem C03_frozen_nd : forall mid dmat_of driftv_of x0 n g, length x0 = length 
   /\ cn_drift_fine s = driftv_of (refine_n mid (S n) g)
   /\ (exists d, cn_drift_coarse s = Some d /\ Forall2 Qeq d (driftv_of (refine_n mid n g))).
 Proof. exact frozen_nd. Qed.
+
+(* 'SAME GENERATOR' (one-dimensional coupling on CTMCGrid, ANY number n of refinements of ANY well-formed grid g): the generator data of the
+   COARSE component of the level-(n+1) pair, read on the level machine's own state s -- the rate at which it jumps by each coarse state
+   (the coupled inflow on s's grid), its squared diffusion coefficient and its (frozen) drift -- are EQUAL to the generator data of the
+   level-n chain: the rates q_entry on the grid refined n times, sig2_of and drift_of of that grid.  What is left on paper is only
+   'equal generator data => equal law'. *)
+Section SameGenerator.
+  Variable mass : Q -> Q -> Q.
+  Hypothesis mass_add : forall a b c, a <= b -> b <= c -> (c < 0 \/ 0 < a) -> mass a c == mass a b + mass b c.
+  Hypothesis mass_pos : forall a b, a <= b -> (b < 0 \/ 0 < a) -> 0 <= mass a b.
+  Hypothesis mass_proper : forall a a' b b', a == a' -> b == b' -> mass a b == mass a' b'.
+  Theorem C03_same_generator_1d : forall sig2_of drift_of x0 g xs0 n, grid_wf g -> g_axes g = [xs0] ->
+    let gn := refine_n amid n g in
+    let s := run_levels amid sig2_of drift_of x0 (S n) g in
+    let fine_axis := nth 0 (g_axes (c_grid s)) [] in let coarse_axis := nth 0 (g_axes gn) [] in
+    c_level s = S n
+    /\ length fine_axis = (2 * length coarse_axis - 1)%nat /\ g_o (c_grid s) = (2 * g_o gn)%nat
+    /\ (forall j, (j < length coarse_axis)%nat -> nthq fine_axis (2 * j) = nthq coarse_axis j)
+    /\ (forall j, (j < length coarse_axis)%nat -> j <> g_o gn ->
+          inflow amid mass fine_axis (g_o (c_grid s)) (2 * j) == q_entry amid mass coarse_axis (g_o gn) j)
+    /\ c_sig2_coarse s = sig2_of gn
+    /\ (exists d, c_drift_coarse s = Some d /\ d == drift_of gn).
+  Proof. intros sig2_of drift_of x0 g xs0 n. apply (same_generator_1d mass); assumption. Qed.
+End SameGenerator.
 
 (* F-C03-1: the faithful model of couplinglevycopula.py:__coupling_state takes the corner probabilities of the odd axes
    from the MARGIN of the (untruncated) measure over those axes; there is a 2-d measure (an explicit additive table of
@@ -193,6 +284,23 @@ Example C03_nonvacuous :
   /\ option_map Qred (step_coupling_state ps xs' 6 3 (3#4)) = Some (1#2).
 Proof. vm_compute. repeat split. Qed.
 
+(* non-vacuity of the 2-d law theorems and of the joint rule on the F-C03-1 witness table (fine axis = the refined witness axis, origin index 4):
+   fine state (5,4) (first axis odd): the code's margin rule gives (pl, pr) = (2/9, 7/9), the joint rule (1, 0); the coupled values either
+   side of the threshold; fine state (5,5): four joint corners; and the hypotheses of C03_same_generator_1d hold of a constructor's grid *)
+Example C03_nd_law_nonvacuous :
+  let '(ps, xs, o) := nd_witness in let xs' := refine_axis amid xs in
+  let m2 := step_mass2 ps in let mg := table_marg ps in
+  option_map (fun c => (Qred (fst c), Qred (snd c))) (corner1 amid mg 0 xs' 5) = Some (2 # 9, 7 # 9)
+  /\ option_map (fun c => (Qred (fst c), Qred (snd c))) (corner1_joint amid m2 0 xs' xs' 5 4) = Some (1, 0)
+  /\ coupling_state2 amid m2 mg xs' xs' 4 1 0 (2 # 9) = Some (0, 0) /\ coupling_state2 amid m2 mg xs' xs' 4 1 0 (1 # 2) = Some (1, 0)
+  /\ coupling_state2_joint amid m2 mg xs' xs' 4 1 0 (1 # 2) = Some (0, 0)
+  /\ option_map (map (fun c => Qred (snd c))) (corner2 amid m2 xs' xs' 5 5) = Some [0; 0; 1 # 2; 1 # 2]
+  /\ coupling_state2_joint amid m2 mg xs' xs' 4 1 1 (1 # 2) = Some (1, 0)
+  /\ Qeq_bool (inflow2_gen amid m2 (prob_to2_joint amid m2 mg) xs' xs' 4 6 4) (q_entry2 amid m2 xs xs o 3 2) = true.
+Proof. vm_compute. repeat split. Qed.
+Example C03_same_generator_nonvacuous : grid_wf (fixed_grid (1 # 2) 4 1) /\ exists xs0, g_axes (fixed_grid (1 # 2) 4 1) = [xs0].
+Proof. split; [apply fixed_grid_wf; [reflexivity|lia]|eexists; reflexivity]. Qed.
+
 Print Assumptions C03_coarse_grid_is_even_indices.
 Print Assumptions C03_copy_or_adjacent_1d.
 Print Assumptions C03_coupling_law.
@@ -207,7 +315,15 @@ Print Assumptions C03_copy_rule_nd.
 Print Assumptions C03_adjacency_nd.
 Print Assumptions C03_corner1_is_law.
 Print Assumptions C03_corner2_is_law.
+Print Assumptions C03_telescoping_nd_joint.
+Print Assumptions C03_corner1_joint_is_law.
+Print Assumptions C03_coupling_law_nd_odd_even.
+Print Assumptions C03_coupling_law_nd_even_odd.
+Print Assumptions C03_coupling_law_nd_odd_odd.
 Print Assumptions C03_frozen_nd.
+Print Assumptions C03_same_generator_1d.
 Print Assumptions C03_telescoping_nd_refuted.
 Print Assumptions C03_telescoping_nd_joint_instance.
 Print Assumptions C03_nonvacuous.
+Print Assumptions C03_nd_law_nonvacuous.
+Print Assumptions C03_same_generator_nonvacuous.
